@@ -78,7 +78,13 @@ partial def decRT : Sexp → Option RT
   | .list [.atom "set", t] => do some (.set (← decRT t))
   | .list [.atom "opt", t] => do some (.optional (← decRT t))
   | .list [.atom "ref", .str n] => some (.ref n)
-  | .list [.atom "desc", .str d, t] => do some (.described d (← decRT t))
+  | .list [.atom "desc", .str d, t] => do
+    -- a runtype carries one description: the harness builder hands the innermost one to the constructor, and
+    -- OptionalFieldRuntype takes none
+    match ← decRT t with
+    | .described d2 t2 => some (.described d2 t2)
+    | .optional t2 => some (.optional t2)
+    | t2 => some (.described d t2)
   | .list [.atom "disc", .list schemas, .str key, .list mapping, .list smapping] => do
     let pairs (l : List Sexp) : Option (List (String × RT)) := l.mapM fun p => match p with
       | .list [.str k, t] => do some (k, ← decRT t)
